@@ -365,6 +365,40 @@ theorem x509ish_fresh (validity : Int) : FreshVerifies x509ish validity := by
   simp only [fresh] at h1 h2
   simp [x509ish, fresh, h1, h2, eqFold_refl]
 
+theorem eqFold_length {a b : Bytes} (h : eqFold a b = true) : a.length = b.length := by
+  simp only [eqFold, beq_iff_eq, lower] at h
+  have := congrArg List.length h
+  simpa using this
+
+/-- two names one SAN matches are the same name up to ASCII case -/
+theorem eqFold_of_common {m a b : Bytes} (ha : eqFold m a = true) (hb : eqFold m b = true) :
+    eqFold a b = true := by
+  simp only [eqFold, beq_iff_eq] at ha hb ⊢
+  rw [← ha, ← hb]
+
+/-- what the x509-shaped verifier reads of the SAN -/
+theorem x509ish_san {c : Cert} {n : Bytes} {t : Int} (h : x509ish c n t = true) :
+    c.kind = san n ∧ eqFold c.sanVal n = true := by
+  simp only [x509ish, Bool.and_eq_true, decide_eq_true_eq, beq_iff_eq] at h
+  exact ⟨h.1.2, h.2⟩
+
+/-- the verbatim handling is the model of the tree -/
+theorem certForH_verbatim (vf : Verifier) (validity : Int) (cache : Cache) (name : Bytes) (now : Int) :
+    certForH .verbatim vf validity cache name now = certFor vf validity cache name now := rfl
+
+theorem cacheAfterH_verbatim (vf : Verifier) (validity : Int) (cache : Cache) (name : Bytes) (now : Int) :
+    cacheAfterH .verbatim vf validity cache name now = cacheAfter vf validity cache name now := rfl
+
+/-- every certificate served in a run, with the x509-shaped verifier: served for two requests only
+    when they ask for the same name up to ASCII case -/
+theorem run_cert_one_name {validity : Int} (hv : sec ≤ validity) (cache : Cache) (ops : List Op)
+    {s₁ s₂ : Served} (h₁ : s₁ ∈ run x509ish validity cache ops) (h₂ : s₂ ∈ run x509ish validity cache ops)
+    (hc : s₁.cert = s₂.cert) : eqFold s₁.name s₂.name = true := by
+  have v₁ := run_all_verify hv (x509ish_fresh validity) ops cache s₁ h₁
+  have v₂ := run_all_verify hv (x509ish_fresh validity) ops cache s₂ h₂
+  rw [hc] at v₁
+  exact eqFold_of_common (x509ish_san v₁).2 (x509ish_san v₂).2
+
 /-! ## §4 url.URL.Hostname -/
 
 theorem digits_no_colon {p : Bytes} (hp : p.all isDigit = true) : (58 : UInt8) ∉ p := by
